@@ -66,10 +66,16 @@ func (c cacheMsgs) commit(ctx sdk.Context, k common.KeeperOracle) {
 	}
 	index, _ := k.GetIndexRecentMsg(ctx)
 
+	// entries at or below block-MaxNonce are out of the replay window; on a chain younger than
+	// MaxNonce nothing is (the uint64 subtraction must not wrap)
+	oldest := uint64(0)
+	if block > uint64(common.MaxNonce) {
+		oldest = block - uint64(common.MaxNonce)
+	}
 	i := 0
 	for ; i < len(index.Index); i++ {
 		b := index.Index[i]
-		if b > block-uint64(common.MaxNonce) {
+		if b > oldest {
 			break
 		}
 		k.RemoveRecentMsg(ctx, b)
@@ -115,10 +121,14 @@ func (c *cacheParams) add(p ItemP) {
 func (c *cacheParams) commit(ctx sdk.Context, k common.KeeperOracle) {
 	block := uint64(ctx.BlockHeight())
 	index, _ := k.GetIndexRecentParams(ctx)
+	oldest := uint64(0)
+	if block > uint64(common.MaxNonce) {
+		oldest = block - uint64(common.MaxNonce)
+	}
 	i := 0
 	for ; i < len(index.Index); i++ {
 		b := index.Index[i]
-		if b >= block-uint64(common.MaxNonce) {
+		if b >= oldest {
 			break
 		}
 		k.RemoveRecentParams(ctx, b)
